@@ -73,6 +73,9 @@ Definition summary_ranges (latest : Z) (ds : list delta) : option ranges :=
 Definition mk_tx (like : tx) (date : Z) (a : action) (af : aff) : tx :=
   {| t_sec := t_sec like; t_td := date; t_sd := date; t_act := a; t_af := af; t_glob := false; t_ri := 0%N |}.
 
+(* rows of the original history settling after the date *)
+Definition rows_after (latest : Z) (txs : list tx) : list tx := filter (fun t => latest <? t_sd t) txs.
+
 Section WithArith.
   Variable A : arith.
 
@@ -203,26 +206,114 @@ Section WithArith.
     | d :: r => t <- keep_delta d ;; rest <- keep_all r ;; Ok (t :: rest)
     end.
 
-  (* make_summary_txs *)
-  Definition make_summary (latest : Z) (ds : list delta) (annual : bool) : res (list tx) :=
+  (* make_summary_txs: (generated rows sorted by date, re-emitted rows) *)
+  Definition summary_afs (rg : ranges) (ds : list delta) : list (aff * nat) :=
+    match rg_summarizable rg with
+    | Some s => sort_afis (last_idxs (rev (indexed 0 (firstn (S s) ds))) [])
+    | None => []
+    end.
+  Definition first_unsum (rg : ranges) : nat :=
+    match rg_summarizable rg with Some s => S s | None => O end.
+
+  Definition make_summary_parts (latest : Z) (ds : list delta) (annual : bool) : res (list tx * list tx) :=
     match ds with
-    | [] => Ok []
+    | [] => Ok ([], [])
     | dflt :: _ =>
         match summary_ranges latest ds with
-        | None => Ok []
+        | None => Ok ([], [])
         | Some rg =>
-            let afs := match rg_summarizable rg with
-                       | Some s => sort_afis (last_idxs (rev (indexed 0 (firstn (S s) ds))) [])
-                       | None => []
-                       end in
-            sums <- per_affiliate annual ds dflt afs ;;
+            sums <- per_affiliate annual ds dflt (summary_afs rg ds) ;;
             let sorted := map zero_ri (sort_txs (number_from 0 sums)) in
-            let first_unsum := match rg_summarizable rg with Some s => S s | None => O end in
-            kept <- keep_all (firstn (S (rg_latest rg) - first_unsum) (skipn first_unsum ds)) ;;
-            Ok (sorted ++ kept)
+            kept <- keep_all (firstn (S (rg_latest rg) - first_unsum rg) (skipn (first_unsum rg) ds)) ;;
+            Ok (sorted, kept)
         end
     end.
-End WithArith.
+  Definition make_summary (latest : Z) (ds : list delta) (annual : bool) : res (list tx) :=
+    p <- make_summary_parts latest ds annual ;; Ok (fst p ++ snd p).
 
-(* rows of the original history settling after the date *)
-Definition rows_after (latest : Z) (txs : list tx) : list tx := filter (fun t => latest <? t_sd t) txs.
+  (* ---- the round trip of one security, and the classes on which it fails ---- *)
+  Definition sec_run (rows : list tx) : list delta * option stop :=
+    match replace_global_splits false (sort_txs rows) with
+    | Ok l => run A None l
+    | Rej e => ([], Some (SRej e))
+    | Panic p => ([], Some (SPanic p))
+    end.
+
+  (* what is reported for a row: action, affiliate, date, share balance, cost
+     base, capital gain, superficial loss *)
+  Definition oeqb (a b : option Qc) : bool :=
+    match a, b with Some x, Some y => Qceqb x y | None, None => true | _, _ => false end.
+  Definition denied (d : delta) : Qc := match d_sfl d with Some i => sf_amount i | None => 0%Qc end.
+  Definition act_tag (a : action) : N :=
+    match a with Buy _ _ _ _ _ => 0 | Sell _ _ _ _ _ _ => 1 | Roc _ _ => 2 | Sfla _ _ => 3 | Split _ _ _ => 4 end%N.
+  Definition same_report (d1 d2 : delta) : bool :=
+    N.eqb (act_tag (t_act (d_tx d1))) (act_tag (t_act (d_tx d2)))
+    && aff_eqb (t_af (d_tx d1)) (t_af (d_tx d2)) && (d_sd d1 =? d_sd d2)
+    && Qceqb (s_sh (d_post d1)) (s_sh (d_post d2)) && oeqb (s_acb (d_post d1)) (s_acb (d_post d2))
+    && oeqb (d_gain d1) (d_gain d2) && Qceqb (denied d1) (denied d2).
+  Fixpoint same_reports (a b : list delta) : bool :=
+    match a, b with
+    | [], [] => true
+    | x :: a', y :: b' => same_report x y && same_reports a' b'
+    | _, _ => false
+    end.
+  Definition later_deltas (latest : Z) (ds : list delta) : list delta := filter (fun d => latest <? d_sd d) ds.
+
+  (* the history is accepted, its summary is produced, and summary ++ later
+     rows is accepted and reports every later row as the full history does *)
+  Definition history_ok (rows : list tx) : bool :=
+    match snd (sec_run rows) with None => true | Some _ => false end.
+  Definition roundtrip_ok (latest : Z) (annual : bool) (rows : list tx) : bool :=
+    let '(ds, _) := sec_run rows in
+    match make_summary latest ds annual with
+    | Ok sums =>
+        let '(ds2, o2) := sec_run (number_from 0 (sums ++ rows_after latest rows)) in
+        match o2 with
+        | None => same_reports (later_deltas latest ds) (later_deltas latest ds2)
+        | Some _ => false
+        end
+    | _ => false
+    end.
+
+  Definition within_after (a b : Z) : bool := (a <=? b) && (b <=? a + window_days).
+  Definition plain_loss_sell (d : delta) : bool :=
+    is_sell (t_act (d_tx d)) && negb (is_sfl_delta d)
+    && match d_gain d with Some g => Qcltb g 0 | None => false end.
+  Definition gen_loss_sell (t : tx) : bool :=
+    match t_act t with Sell _ _ com _ _ _ => Qcltb 0 com | _ => false end.
+
+  (* K_summary_buy_in_window: a sale at a loss that is not superficial in the
+     full history, re-emitted or later, settles within 30 days after a
+     generated purchase *)
+  Definition K_summary_buy_in_window (latest : Z) (annual : bool) (rows : list tx) : bool :=
+    let '(ds, _) := sec_run rows in
+    match summary_ranges latest ds, make_summary_parts latest ds annual with
+    | Some rg, Ok (gen, _) =>
+        existsb (fun b => is_buy (t_act b)
+                          && existsb (fun d => plain_loss_sell d && within_after (t_sd b) (d_sd d))
+                                     (skipn (first_unsum rg) ds)) gen
+    | _, _ => false
+    end.
+  (* K_annual_sell_in_window: an acquisition, re-emitted or later, settles
+     within 30 days after a generated 1-January sale that realises a loss *)
+  Definition K_annual_sell_in_window (latest : Z) (annual : bool) (rows : list tx) : bool :=
+    let '(ds, _) := sec_run rows in
+    match summary_ranges latest ds, make_summary_parts latest ds annual with
+    | Some rg, Ok (gen, _) =>
+        existsb (fun s => gen_loss_sell s
+                          && existsb (fun d => is_buy (t_act (d_tx d)) && within_after (t_sd s) (d_sd d))
+                                     (skipn (first_unsum rg) ds)) gen
+    | _, _ => false
+    end.
+  (* K_zero_balance_acb: a summarised affiliate ends with no shares but a cost base *)
+  Definition K_zero_balance_acb (latest : Z) (rows : list tx) : bool :=
+    let '(ds, _) := sec_run rows in
+    match ds, summary_ranges latest ds with
+    | dflt :: _, Some rg =>
+        existsb (fun x => let post := d_post (nth (snd x) ds dflt) in
+                          Qceqb (s_sh post) 0
+                          && match s_acb post with Some c => negb (Qceqb c 0) | None => false end)
+                (summary_afs rg ds)
+    | _, _ => false
+    end.
+End WithArith.
